@@ -1,5 +1,9 @@
 import ClipVerif.Proofs.C13
+import ClipVerif.Proofs.C13b
 import ClipVerif.Proofs.C17
+import ClipVerif.Model.Trim
+import ClipVerif.Model.Lists
+import ClipVerif.Model.Out
 /-
 C13 — results do not depend on coordinate magnitude within the advertised range.  Proved about the
 generated arithmetic leaves: they are invariant under every translation (differences are taken
@@ -52,5 +56,32 @@ theorem crossProduct_overflow_witness :
 theorem area2_translate (path : List IPt) (dx dy : Int) :
     Spec.area2 (path.map fun v => ⟨v.x + dx, v.y + dy⟩) = Spec.area2 path := by
   exact Proofs.C17.area2_translate path dx dy
+
+/-! ### Whole list algorithms commute with every translation (two's-complement, ALL vectors) -/
+
+/-- `TrimCollinear64` commutes with translation by any 64-bit vector (it only compares points for
+    equality and asks `isCollinear`) -/
+theorem trim_translate (path : Array Point64) (isOpen : Bool) (v : Point64) :
+    Model.trimCollinear (path.map (shift · v)) isOpen = (Model.trimCollinear path isOpen).map (shift · v) := by
+  exact Proofs.C13b.trim_map path isOpen v
+
+/-- `StripDuplicates` commutes with translation -/
+theorem strip_translate (path : List Point64) (closed : Bool) (v : Point64) :
+    Model.stripDuplicates (path.map (shift · v)) closed = (Model.stripDuplicates path closed).map (shift · v) := by
+  exact Proofs.C13b.strip_map path closed v
+
+/-- the vertex-removal loop of `cleanCollinear` commutes with translation (equality tests,
+    `isCollinear` and the sign of `dotProduct64` only) -/
+theorem clean_translate (preserve : Bool) (ring : List Point64) (v : Point64) :
+    Model.cleanCollinearLoop preserve (ring.map (shift · v)) =
+      ((Model.cleanCollinearLoop preserve ring).1.map (shift · v), (Model.cleanCollinearLoop preserve ring).2) := by
+  exact Proofs.C13b.clean_map preserve ring v
+
+/-- `buildPath` commutes with translation, except for the very-small-triangle test, which is
+    itself translation invariant (coordinate differences) -/
+theorem buildPath_translate (ring : List Point64) (reverse isOpen : Bool) (v : Point64) :
+    Model.buildPath (ring.map (shift · v)) reverse isOpen = (Model.buildPath ring reverse isOpen).map (·.map (shift · v)) := by
+  exact Proofs.C13b.buildPath_map ring reverse isOpen v
+
 
 end C13
